@@ -146,6 +146,33 @@ def programs(tier):
                                   println(Call("gshow_m", va[0], targs=[ta])), println(Call("twice", vb[0], targs=[tb])), println(Call("twice", va[0], targs=[ta])),
                                   println(Call("pair_show", va[0], vb[0], targs=[ta, tb])), println(Call("pair_show", vb[0], va[0], targs=[tb, ta]))])
     out += under_programs(tier, cat)
+    out += shared_names_programs()
+    return out
+
+
+def shared_names_programs():
+    """A generic function whose type parameters are spelled like the type parameters of the generic struct it reads fields of, in
+    another order / another position / partly instantiated: instantiating the field type is a simultaneous substitution, so the
+    names of the struct's own parameters must not capture the arguments."""
+    from gast import TextProgram
+    out = []
+    decl = "struct Pair[T, U] { first: T, second: U }\nstruct Tri[T, U, V] { a: T, b: U, c: V }\n"
+    fns = {
+        "swapped-first": ("fn f[T, U](p: Pair[U, T]) -> U { p.first }", 'f(Pair { first: "s", second: 1 })', "string", "s"),
+        "swapped-second": ("fn f[T, U](p: Pair[U, T]) -> T { p.second }", 'f(Pair { first: "s", second: 1 })', "int32", "1"),
+        "later-name-first-position": ("fn f[U](p: Pair[U, int32]) -> U { p.first }", 'f(Pair { first: "s", second: 1 })', "string", "s"),
+        "earlier-name-second-position": ("fn f[T](p: Pair[int32, T]) -> T { p.second }", 'f(Pair { first: 1, second: "s" })', "string", "s"),
+        "rotated-a": ("fn f[T, U, V](p: Tri[U, V, T]) -> U { p.a }", 'f(Tri { a: "s", b: true, c: 1 })', "string", "s"),
+        "rotated-b": ("fn f[T, U, V](p: Tri[U, V, T]) -> V { p.b }", 'f(Tri { a: "s", b: 2, c: true })', "int32", "2"),
+        "rotated-c": ("fn f[T, U, V](p: Tri[V, T, U]) -> U { p.c }", 'f(Tri { a: true, b: 2, c: "s" })', "string", "s"),
+        "nested-argument": ("fn f[T, U](p: Pair[Pair[U, T], T]) -> Pair[U, T] { p.first }", 'f(Pair { first: Pair { first: "s", second: 1 }, second: 2 }).first', "string", "s"),
+        "same-order-control": ("fn f[T, U](p: Pair[T, U]) -> T { p.first }", 'f(Pair { first: "s", second: 1 })', "string", "s"),
+    }
+    for name, (fn, call, ty, val) in fns.items():
+        show = "r" if ty == "string" else "int32_to_string(r)"
+        text = decl + fn + f"\nfn main() -> unit {{\n    let r: {ty} = {call};\n    let _ = string_println({show});\n    ()\n}}\n"
+        out.append({"prog": TextProgram("c07_sharednames_" + name.replace("-", "_"), text, [val]), "family": "c07-shared-names",
+                    "ident": f"c07:type-parameter-named-like-the-struct's:{name}", "expect": "accept"})
     return out
 
 
